@@ -96,6 +96,19 @@ func fieldRoles() []fieldRole {
 				})
 			})
 		}},
+		{"server/kv", "DB", "versionIdTracker", "atomic counter advanced by Add(1) when a record gets a new version", func(h *H, typ string, f *types.Var, ws []ir.FieldWrite) bool {
+			if !atomicInt64(f.Type()) {
+				return false
+			}
+			for _, w := range ws {
+				if w.Kind == "atomic.Add" {
+					if k, ok := w.Val.(*ssa.Const); ok && k.Value != nil && k.Int64() == 1 {
+						return true
+					}
+				}
+			}
+			return false
+		}},
 		{"server/wal", "Wal", "lastAppendedOffset", "atomic counter stored with the offset of the entry just appended", with(msgField("Offset"), atomicInt64)},
 		{"server/wal", "ReadWriteSegment", "currentFileOffset", "the write position: incremented by the size of the record just written", func(h *H, typ string, f *types.Var, ws []ir.FieldWrite) bool {
 			return anyWrite(ws, func(w ir.FieldWrite) bool {
